@@ -572,7 +572,12 @@ def run(ctx, only_case=None):
                 "with exact-zero rows and subnormal cells. dyntrack cases: DynamicRFKickMap (linear, phase modulation / phase + amplitude noise from the map's own "
                 "__calcModulation with a known seed) + DriftMap driven as main() does over 12-40 steps on n = 56|64, unit hat-blob on particle 0 renewed every 4|6 "
                 "steps: per step offsets and particles against the generated apply() over the queue model, oracle blob centroid = particle while the support is inside "
-                "(non-trivial: >= 8 evaluated maps). load cases: grid->x(q), grid->y(p) against the generated PhaseSpace::x/y. Program level: 4 runs over the four FPTrack "
+                "(non-trivial: >= 8 evaluated maps). rfblob cases: every RF map main() can build (RFKickMap / DynamicRFKickMap x linear / sinusoidal constructor; "
+                "dynamic: phase modulation | phase noise | amplitude noise | all three) on n = 64|72|80, sinusoidal kick amplitude 1-2.5 cells at 0.05-0.12 rad of RF "
+                "phase per cell, driven `rfm->apply(); rfm->applyToAll(ps)` over 8-14 steps, unit hat-blob on particle 0 (within 5 columns of the synchronous column) "
+                "renewed every 3|4 steps, the kicked grid is the next step's source: per step every particle against the generated KickMap::applyTo over the table "
+                "printed after the SAME step's apply(); oracle blob centroid = particle after EVERY step within float rounding + 1/4 of the table's second "
+                "difference at the particle's columns (non-trivial: >= 4 evaluated steps, >= 3 of them after the first). load cases: grid->x(q), grid->y(p) against the generated PhaseSpace::x/y. Program level: 4 runs over the four FPTrack "
                 "values, 2 runs FPTrack 2 on a +-20 sigma grid (underflowed tails, particles on the outermost rows), 2 runs with RF phase modulation / noise: track of the "
                 "particle started at (0,0) within [-1/2, 3/2] cells of /BunchPosition, /EnergyAverage (non-trivial: a step changes the mean energy by >= 2 cells).")
     coq = vp_coq.full_check("C15", ctx, fams=("track",))
